@@ -1,6 +1,6 @@
 (* Decoding of C17 cases and verdicts. *)
 From Coq Require Import List NArith ZArith Bool.
-From FS Require Import Sx Model.Path Model.Stat Model.Tree Model.TarHdr.
+From FS Require Import Sx Model.Path Model.Stat Model.Tree Model.Hardlinks Model.TarHdr.
 Import ListNotations.
 Open Scope N_scope.
 
@@ -77,7 +77,7 @@ Definition spec_archive (l : list entry) (closed : bool) (impl : sx) : bool * sx
       let ok_l := negb closed || links_resolve ms in
       (ok_m && ok_x && trailer && ok_l,
        if negb ok_m then first_bad l ms 0
-       else if negb ok_l then SL [SB [115; 105; 103]; SB [100; 97; 110; 103; 108; 105; 110; 103; 45; 104; 97; 114; 100; 108; 105; 110; 107]]
+       else if negb ok_l then SL [SB [100; 97; 110; 103; 108; 105; 110; 103]]   (* "dangling" *)
        else SL [of_bool ok_x; of_bool trailer])
     | None => (false, SL [SB [101]])       (* a well-formed view must be exported *)
     end
@@ -92,7 +92,10 @@ Definition run_1701 (input impl : sx) : sx :=
     | Some view =>
       let l := walk_root view in
       let m := enc_result (write_tar view) in
-      let sp := spec_archive l (links_closed l) impl in
+      (* on a view whose links are closed the reset changes nothing: the expectation is the
+         view's own walk, independently of the reset model *)
+      let l_spec := if links_closed l then l else reset_entries l in
+      let sp := spec_archive l_spec (links_closed l) impl in
       verdict m impl (fst sp) (snd sp)
     end
   | _ => v_malformed
@@ -119,11 +122,6 @@ Fixpoint is_sublisting (reset : bool) (sub : list stat) (l : list entry) : bool 
     else is_sublisting reset sub l'
   end.
 
-Definition sig_dangling : sx :=
-  SL [SB [115; 105; 103];   (* "sig" "tar-hardlink-target-filtered-out" *)
-      SB [116; 97; 114; 45; 104; 97; 114; 100; 108; 105; 110; 107; 45; 116; 97; 114; 103; 101; 116; 45; 102; 105;
-          108; 116; 101; 114; 101; 100; 45; 111; 117; 116]].
-
 Definition run_1702 (input impl : sx) : sx :=
   match input, impl with
   | SL [v; SL _; SL _; rs], SL [lst; res] =>
@@ -133,12 +131,11 @@ Definition run_1702 (input impl : sx) : sx :=
       let l := map (fun s => (s, content_of vl (st_path s))) stats in
       let m := SL [lst; enc_result (write_tar_listing l)] in
       let sub_ok := is_sublisting reset stats vl in
-      let sp := spec_archive l (links_closed vl) res in
-      let dangling := match dec_ok_result res with
-                      | Some (mx, _) => links_closed vl && negb (links_resolve (map fst mx)) && negb reset
-                      | None => false end in
-      verdict m impl (sub_ok && fst sp)
-              (if negb sub_ok then SL [SB [115; 117; 98]] else if dangling then sig_dangling else snd sp)
+      (* reset = true: the listing already went through the real WithHardlinkReset and is the
+         expectation as it stands; otherwise the reset model gives the expected link names *)
+      let l_spec := if reset then l else reset_entries l in
+      let sp := spec_archive l_spec (links_closed vl) res in
+      verdict m impl (sub_ok && fst sp) (if negb sub_ok then SL [SB [115; 117; 98]] else snd sp)
     | _, _, _ => v_malformed
     end
   | _, _ => v_malformed
